@@ -1,6 +1,7 @@
 package verifsim
 
 import (
+	"fmt"
 	"math/big"
 
 	"github.com/idena-network/idena-go/blockchain/attachments"
@@ -536,6 +537,13 @@ func (w *World) Burst(r *verifutil.Rng) []*Gen {
 	}
 	someone := func() common.Address { return w.pickActor(r, nil).Addr }
 	bal := st.GetBalance(from.Addr)
+	// pattern: tx n spends most of the balance, tx n+1 (admitted by the pool against the head
+	// state) is then under-funded in the block, tx n+2 names a fresh address through a
+	// validator that reads it with a creating accessor and is skipped on the nonce gap
+	pattern := r.Intn(4) == 0
+	if pattern {
+		n = 3
+	}
 	for i := 0; i < n; i++ {
 		var t types.TxType
 		var to *common.Address
@@ -543,7 +551,11 @@ func (w *World) Burst(r *verifutil.Rng) []*Gen {
 		var payload []byte
 		kind := ""
 		addr := func(a common.Address) *common.Address { return &a }
-		switch r.Intn(14) {
+		sel := r.Intn(14)
+		if pattern {
+			sel = []int{4, 4, []int{1, 8, 9}[r.Intn(3)]}[i]
+		}
+		switch sel {
 		case 0:
 			t, to, kind = types.DelegateTx, addr(someone()), "Delegate"
 		case 1:
@@ -553,7 +565,7 @@ func (w *World) Burst(r *verifutil.Rng) []*Gen {
 		case 3:
 			t, kind = types.KillTx, "Kill"
 		case 4:
-			t, to, amount, kind = types.SendTx, addr(someone()), new(big.Int).Div(new(big.Int).Mul(bal, big.NewInt(int64(r.Range(50, 99)))), big.NewInt(100)), "Send/most"
+			t, to, amount, kind = types.SendTx, addr(someone()), new(big.Int).Div(new(big.Int).Mul(bal, big.NewInt(int64(r.Range(55, 95)))), big.NewInt(100)), "Send/most"
 		case 5:
 			t, to, amount, kind = types.SendTx, addr(fresh()), new(big.Int).Div(bal, big.NewInt(int64(r.Range(2, 9)))), "Send"
 		case 6:
@@ -625,4 +637,95 @@ func (w *World) FatTxs(r *verifutil.Rng) []*Gen {
 		out = append(out, &Gen{Tx: SignedTx(from, types.SendTx, &to, Dna(1), maxFee, nil, nonce, st.Epoch(), payload), Kind: "fat:Send"})
 	}
 	return out
+}
+
+// ExactCapTxs builds three transactions of ONE sender with consecutive nonces such that the
+// cumulative block gas (tx gas + contract VM gas) lands EXACTLY on the block gas cap after
+// the second one and a third still follows: a fat SendTx whose payload length is tuned, a
+// contract call whose VM gas is measured beforehand with a twin block, and a small SendTx.
+func (w *World) ExactCapTxs(r *verifutil.Rng, twin *Replica) []*Gen {
+	v := w.View()
+	st := v.AppState.State
+	c := w.knownContract(r)
+	from := w.ByAddr[st.GodAddress()]
+	if from == nil || st.GetBalance(from.Addr).Cmp(Dna(20000)) < 0 {
+		w.Stats["exactcap_skip_no_funds"]++
+		return nil
+	}
+	maxGas := int(types.MaxBlockSize(true))
+	nonce := w.StateNonce(from) // the directed proposer's pool holds nothing else
+	ep := st.Epoch()
+	dest := w.anyAddr(r)
+	type cand struct {
+		name    string
+		t       types.TxType
+		to      *common.Address
+		amount  *big.Int
+		payload []byte
+	}
+	var cands []cand
+	minStake := new(big.Int).Mul(st.FeePerGas(), big.NewInt(3000000))
+	dep := func(name string, a *attachments.DeployContractAttachment) {
+		pl, _ := a.ToBytes()
+		cands = append(cands, cand{name, types.DeployContractTx, nil, new(big.Int).Add(minStake, big.NewInt(int64(r.Intn(1000)))), pl})
+	}
+	call := func(a *attachments.CallContractAttachment) {
+		pl, _ := a.ToBytes()
+		cands = append(cands, cand{"call:" + a.Method, types.CallContractTx, &c.Addr, nil, pl})
+	}
+	// deployments burn enough VM gas for a further tx to fit under the pool's tx-gas-only cap
+	dep("deploy:TimeLock", attachments.CreateDeployContractAttachment(embedded.TimeLockContract, nil, nil, common.ToBytes(uint64(w.Now().Unix()+100))))
+	dep("deploy:Multisig", attachments.CreateDeployContractAttachment(embedded.MultisigContract, nil, nil, []byte{3}, []byte{2}))
+	dep("deploy:Multisig1", attachments.CreateDeployContractAttachment(embedded.MultisigContract, nil, nil, []byte{1}, []byte{1}))
+	dep("deploy:TimeLock-long", attachments.CreateDeployContractAttachment(embedded.TimeLockContract, nil, nil, common.ToBytes(uint64(w.Now().Unix()+100)), r.Bytes(5)))
+	if c != nil {
+		call(attachments.CreateCallContractAttachment("transfer", dest.Bytes(), Dna(1).Bytes()))
+		call(attachments.CreateCallContractAttachment("add", dest.Bytes()))
+		call(attachments.CreateCallContractAttachment("push", dest.Bytes(), Dna(1).Bytes()))
+	}
+	feeRate := st.FeePerGas()
+	budget := func(gas int) *big.Int { return new(big.Int).Add(new(big.Int).Mul(feeRate, big.NewInt(int64(gas)*3)), Dna(1)) }
+	tailGas := fee.CalculateGas(SignedTx(from, types.SendTx, &dest, Dna(1), budget(3000), nil, nonce+2, ep, nil))
+	for _, cd := range cands {
+		// measure: the contract tx alone, as the first tx of the sender
+		probe := SignedTx(from, cd.t, cd.to, cd.amount, budget(60000), nil, nonce, ep, cd.payload)
+		tr, err := w.Twin(twin, probe, false)
+		if err != nil || tr == nil || !tr.Included || len(tr.Receipts) != 1 {
+			w.Stats["exactcap_probe_not_included"]++
+			continue
+		}
+		vm := int(tr.Receipts[0].GasUsed)
+		t2 := SignedTx(from, cd.t, cd.to, cd.amount, budget(60000), nil, nonce+1, ep, cd.payload)
+		g2 := fee.CalculateGas(t2)
+		target := maxGas - g2 - vm
+		if target%10 != 0 || target < 200000 || vm < tailGas {
+			w.Stats["exactcap_unusable:"+cd.name+fmt.Sprintf(":vm=%d", vm)]++
+			continue
+		}
+		// tune the payload length of the fat tx
+		L := target/10 - 150
+		var t1 *types.Transaction
+		for it := 0; it < 8; it++ {
+			payload := make([]byte, L)
+			// MaxFee may not buy more gas than a block holds (TooHighMaxFee): exactly the fee + a little
+			t1 = SignedTx(from, types.SendTx, &dest, Dna(1), new(big.Int).Add(new(big.Int).Mul(feeRate, big.NewInt(int64(target))), big.NewInt(1000)), nil, nonce, ep, payload)
+			d := target - fee.CalculateGas(t1)
+			if d == 0 {
+				break
+			}
+			L += d / 10
+			t1 = nil
+			if L < 1 {
+				break
+			}
+		}
+		if t1 == nil {
+			w.Stats["exactcap_tuning_failed"]++
+			continue
+		}
+		w.Stats["exactcap_built:"+cd.name]++
+		t3 := SignedTx(from, types.SendTx, &dest, Dna(1), budget(3000), nil, nonce+2, ep, nil)
+		return []*Gen{{Tx: t1, Kind: "exactcap:fat"}, {Tx: t2, Kind: "exactcap:contract"}, {Tx: t3, Kind: "exactcap:tail"}}
+	}
+	return nil
 }
